@@ -9,4 +9,5 @@ Extraction Blacklist String List Int Z Str Unix Array Bytes Char.
 Extraction "model.ml"
   Base.Prelude.ex_base
   Recon.Helix.c16_obs Recon.Helix.closest_t Recon.Helix.helix_at Recon.Helix.closest_to_beamline
-  Recon.Helix.arc_length Recon.Helix.mk_spoint Recon.Fit.fit3_outcome Recon.Fit.three_template_prim.
+  Recon.Helix.arc_length Recon.Helix.mk_spoint Recon.Fit.fit3_outcome Recon.Fit.three_template_prim
+  Recon.Fit.tinyphi_class.
